@@ -306,6 +306,7 @@ def run_check(mod, tier: str, replay: Optional[str]) -> int:
 
     # 3. violations: shrink, write replay
     excluded = 0
+    seen_final: set[str] = set()
     for sig, b in sorted(total.buckets.items()):
         if sig_matches(sig, known_sigs):
             excluded += b['count']
@@ -319,6 +320,17 @@ def run_check(mod, tier: str, replay: Optional[str]) -> int:
                     case, detail = case2, d2
             except Exception:
                 pass
+        if hasattr(mod, 'final_sig'):
+            try:
+                sig = mod.final_sig(case, detail) or sig
+            except Exception:
+                pass
+        if sig in seen_final:
+            continue
+        seen_final.add(sig)
+        if sig_matches(sig, known_sigs):
+            excluded += b['count']
+            continue
         path = _write_replay(prop, case_hash(sig), case, detail, sig=sig)
         violations.append((sig, path, detail))
 
